@@ -4,9 +4,9 @@
    hyper.py / path_basic.py _reconstruct_tree by harness/props/c14.py on every run.
    Assumptions that appear as premises:  H_inj (sha1 o pickle separates fingerprints),
    store_spec (what _maybe_run_optimizer needs from the DiskDict; PROVED below for
-   directory=None and for an on-disk directory with directory_split=False under the pickle
-   round-trip hypothesis; for directory_split=True it is covered by the executed
-   correspondence only), NoDup of the size_dict keys (a Python dict).
+   directory=None and for an on-disk directory with directory_split=False and =True under
+   the pickle round-trip hypothesis, for the DiskDict as it stands; for the fixed DiskDict
+   only the directory=None instance is proved, the rest is executed correspondence), NoDup of the size_dict keys (a Python dict).
    The sub-optimizer is an arbitrary oracle `orc`; all theorems hold for every oracle. *)
 From Coq Require Import Lia Permutation ZArith List Bool.
 From Ctg Require Import Base Net DiskFS Reusable BaseFacts NetFacts FingerprintFacts DiskFSFacts ReusableFacts.
@@ -161,6 +161,20 @@ Theorem C14_store_spec_directory_flat : forall (encode : con -> bytes) (decode :
 Proof. exact flat_store_spec_cur. Qed.
 Print Assumptions C14_store_spec_directory_flat.
 
+(* directory_split=True, the default layout (h[:2]/h[2:], sub-directory created on demand) *)
+Theorem C14_store_spec_directory_split : forall (encode : con -> bytes) (decode : bytes -> option con) (mr : nat),
+  (forall c, decode (encode c) = Some c) ->
+  store_spec (ops_cur encode decode (S mr)) (split_inv encode) (flat_view decode) split_key.
+Proof. exact split_store_spec_cur. Qed.
+Print Assumptions C14_store_spec_directory_split.
+
+(* the fixed DiskDict of proposed_fixes/C15_diskdict-torn-write.patch, directory=None *)
+Theorem C14_store_spec_memory_fix : forall (encode : con -> bytes) (decode : bytes -> option con) (mr : nat),
+  store_spec (ops_fix encode decode mr) (fun d => dd_dir d = false)
+             (fun d k => mem_get k (dd_mem d)) (fun _ => True).
+Proof. exact mem_store_spec_fix. Qed.
+Print Assumptions C14_store_spec_memory_fix.
+
 (* fresh_process_equiv: an empty memory cache over the same directory answers every query like
    the process that wrote it, and goes on holding the same entries *)
 Theorem C14_fresh_process_equiv : forall (encode : con -> bytes) (decode : bytes -> option con) (mr : nat),
@@ -174,6 +188,18 @@ Theorem C14_fresh_process_equiv : forall (encode : con -> bytes) (decode : bytes
      flat_view decode (fst (snd (maybe_run H ops orc c (d, ns) q))) k).
 Proof. exact fresh_process_equiv. Qed.
 Print Assumptions C14_fresh_process_equiv.
+
+Theorem C14_fresh_process_equiv_split : forall (encode : con -> bytes) (decode : bytes -> option con) (mr : nat),
+  (forall c, decode (encode c) = Some c) ->
+  forall (H : fpr -> name) orc c d ns q, split c = true -> split_inv encode d ->
+  let ops := ops_cur encode decode (S mr) in
+  fst (maybe_run H ops orc c (fresh d, ns) q) = fst (maybe_run H ops orc c (d, ns) q) /\
+  snd (snd (maybe_run H ops orc c (fresh d, ns) q)) = snd (snd (maybe_run H ops orc c (d, ns) q)) /\
+  (forall k, split_key k ->
+     flat_view decode (fst (snd (maybe_run H ops orc c (fresh d, ns) q))) k =
+     flat_view decode (fst (snd (maybe_run H ops orc c (d, ns) q))) k).
+Proof. exact fresh_process_equiv_split. Qed.
+Print Assumptions C14_fresh_process_equiv_split.
 
 (* ---- non-vacuity: a concrete history through the concrete DiskDict model --------------- *)
 (* codec of the example: an entry is written as its path length + 1 bytes (round trip holds on
